@@ -165,7 +165,7 @@ class Extent(object):
                 # base FULL
                 if acc == "loc":
                     return self._loc(v, idx)
-                if acc in ("values",):
+                if acc in ("values", "iloc"):
                     if self.ext(idx) == POS and self._same_index(idx, v[1][1]):
                         return ROW
                     self.flag("positional-read", "positional read of a time-indexed object at a position that is not the location of now in the same index", v)
@@ -196,7 +196,7 @@ class Extent(object):
                 self.flag("full-method:%s" % m, "method .%s() on a time-indexed object that may hold rows after now" % m, v)
                 return OTHER
             if b == INDEX:
-                if m == "get_loc" and len(v[3]) == 1 and self.tclass(v[3][0]) == "NOW":
+                if m == "get_loc" and len(v[3]) == 1 and self.tclass(v[3][0]) in ("NOW", "NOW_MINUS"):  # the position of now, or of a date before it
                     return POS
                 if m in ("get_level_values",):
                     return INDEX
